@@ -113,6 +113,9 @@ func (x *Exec) oblige(st *State, kind, name string, props []string, goal *Term, 
 	if x.quiet > 0 {
 		return
 	}
+	if x.fn == nil {
+		return
+	}
 	if goal.IsTrue() {
 		// still count it: discharged by construction (syntactic simplification)
 		x.obls = append(x.obls, &Obligation{Name: name, Kind: kind, Props: props, Func: funcKey(x.fn), Behavior: x.beh.Name,
@@ -307,6 +310,7 @@ func (x *Exec) errConst(name string) *Term {
 		x.gfacts = append(x.gfacts, Ne(t, x.errIDs[k]))
 	}
 	x.gfacts = append(x.gfacts, Eq(App("isEOFp", SBool, t), BoolLit(name == "io.EOF")))
+	x.gfacts = append(x.gfacts, Eq(App("errtag", SInt, t), t)) // sentinel errors carry their own identity as tag; all other errors have tag 0
 	x.errIDs[name] = t
 	return t
 }
@@ -1199,6 +1203,10 @@ func (x *Exec) ifaceEq(st *State, a, b *IfaceVal) *Term {
 	}
 	// a symbolic, b concrete: equal only if a denotes that value; be conservative using an uninterpreted relation
 	if b.Dyn != nil {
+		if _, isPtr := b.V.(*PtrVal); isPtr {
+			// a concrete pointer-typed error is never one of the package-level sentinel errors
+			return And(Ne(a.Sym, IntLit(0)), Eq(App("errtag", SInt, a.Sym), IntLit(0)), Fresh("ifaceeq", SBool))
+		}
 		if bt, ok := b.V.(*Term); ok && bt.S == SInt {
 			// e.g. error compared with a concrete named-int error value (smpp.CMDStatus): identity by tag+value
 			return Eq(a.Sym, App("iface."+sanitize(b.Dyn.String()), SInt, bt))
